@@ -248,13 +248,49 @@ def rule_groups(repo: Repo, rep: Report) -> int:
 # BP-UPDATE
 # ---------------------------------------------------------------------------
 
+def compute_vc_evaluated(fi: FuncInfo):
+    """compute_vc on edges 0..5 of a graph whose variables have degree 1, 2, 3 (edge -> variable map 0, 1, 1, 2, 2, 2), two
+    batch rows: the message on edge e must be posterior[variable(e)] - cv[e] - in particular on the only edge of a leaf."""
+    from ..constfold import Unfoldable
+    from ..frag import FragRaise, FragReturn, run_fragment
+
+    lv = [0, 1, 1, 2, 2, 2]
+    soft = [[1.7, -0.3, 0.9], [-2.5, 0.25, 4.0]]
+    cv = [[0.4, 2.0, -1.1, 0.5, -0.75, 3.0], [1.5, -0.5, 0.125, -2.0, 0.0, 0.75]]
+    attrs = {"self.lv_ind": lv, "self.var_degree": [1, 2, 3], "self.chk_degree": [2, 2, 2], "self.num_edges": 6, "self.code_length": 3, "self.device": "cpu"}
+    try:
+        run_fragment(fi.body, {"cv": cv, "soft_input": soft}, attrs, materialise=True, max_steps=100000)
+        return None, "no value returned"
+    except FragReturn as r:
+        got = r.value
+    except (Unfoldable, FragRaise, TypeError, IndexError, ValueError) as exc:
+        return None, str(exc)
+    want = [[soft[b][lv[e]] - cv[b][e] for e in range(6)] for b in range(2)]
+    if not (isinstance(got, list) and len(got) == 2 and all(isinstance(r_, list) and len(r_) == 6 and all(isinstance(x, (int, float)) and not isinstance(x, bool) for x in r_) for r_ in got)):
+        return None, "result is not a 2 x 6 real matrix"
+    for b in range(2):
+        for e in range(6):
+            if abs(got[b][e] - want[b][e]) > 1e-9:
+                deg = [1, 2, 3][lv[e]]
+                return VIOLATION, f"edge {e} (variable {lv[e]} of degree {deg}): message {got[b][e]!r} for posterior {soft[b][lv[e]]} and incoming check message {cv[b][e]}; the extrinsic message is posterior - incoming = {want[b][e]!r}. The caller hands in the running posterior, so an edge that does not subtract its own incoming message feeds the check's information back to it (double counting from the second iteration on)"
+    return OK, "message on every edge = posterior of its variable minus the check's message on the same edge (leaf variables included)"
+
+
 def rule_bp(repo: Repo, rep: Report) -> int:
     ci = repo.cls(BP, "BeliefPropagationDecoder")
     n = 0
     vc = repo.method(ci, "compute_vc")
     form(rep, "BP-UPDATE", vc, one(assigns(vc, "reordered_soft_input")).value if one(assigns(vc, "reordered_soft_input")) else None, ["soft_input.gather(1, lv_ind)", "torch.gather(soft_input, 1, lv_ind)"], "posterior gathered per edge")
     form(rep, "BP-UPDATE", vc, one(assigns(vc, "lv_ind")).value if one(assigns(vc, "lv_ind")) else None, ["self.lv_ind.unsqueeze(0).repeat_interleave(batch_size, dim=0)", "self.lv_ind.unsqueeze(0).expand(batch_size, -1)", "self.lv_ind.unsqueeze(0).repeat(batch_size, 1)"], "edge -> variable map")
-    form(rep, "BP-UPDATE", vc, one(assigns(vc, "vc")).value if one(assigns(vc, "vc")) else None, ["reordered_soft_input - cv"], "vc = posterior - incoming cv (extrinsic)", "the variable-to-check message must exclude the message that came over the same edge", num=([{"reordered_soft_input": 1.7, "cv": 0.4}, {"reordered_soft_input": -0.3, "cv": 2.0}], lambda p: p["reordered_soft_input"] - p["cv"]))
+    if one(assigns(vc, "vc")) is None:
+        # several definitions / another spelling: the method is evaluated on a small graph that has leaf variables
+        st_, d_ = compute_vc_evaluated(vc)
+        if st_ is None:
+            rep.undecided("BP-UPDATE", vc, "vc = posterior - incoming cv (extrinsic)", f"statement not found (code shape not recognised) and not evaluable ({d_})")
+        else:
+            rep.add("BP-UPDATE", vc, "compute_vc evaluated on a graph with variables of degree 1, 2 and 3", st_, d_, node=vc.node)
+    else:
+        form(rep, "BP-UPDATE", vc, one(assigns(vc, "vc")).value if one(assigns(vc, "vc")) else None, ["reordered_soft_input - cv"], "vc = posterior - incoming cv (extrinsic)", "the variable-to-check message must exclude the message that came over the same edge", num=([{"reordered_soft_input": 1.7, "cv": 0.4}, {"reordered_soft_input": -0.3, "cv": 2.0}], lambda p: p["reordered_soft_input"] - p["cv"]))
     n += 3
     cv = repo.method(ci, "compute_cv")
     a = assigns(cv, "tanh_vc")
@@ -413,13 +449,70 @@ def rule_collect(rep: Report, fi: FuncInfo, loopvar: str, iter_attr: str, acc: s
 # MINSUM
 # ---------------------------------------------------------------------------
 
+def minsum_correction_evaluated(ci):
+    """Every statement of compute_cv_minsum and of the compute_cv override that mentions self.scaling_factor or self.offset,
+    in execution order, applied to a scalar message m (own arithmetic): the result must be the normalised-then-offset
+    message m*s - sign(m*s)*o for every configuration (s = 1 and o = 0 included)."""
+    import copy
+
+    from ..constfold import Unfoldable
+    from ..frag import FragRaise, FragReturn, run_fragment
+
+    picked = []
+    for mname in ("compute_cv_minsum", "compute_cv"):
+        fi_ = ci.methods.get(mname)
+        if fi_ is None:
+            continue
+        set_parents(fi_.node)
+        for st in stmts_of(fi_.body):
+            txt = unparse(st)
+            if ("self.scaling_factor" in txt or "self.offset" in txt) and isinstance(st, (ast.If, ast.Assign, ast.AugAssign)):
+                if any(a in picked_nodes for a in ancestors(st)) if (picked_nodes := [p_[0] for p_ in picked]) else False:
+                    continue
+                if isinstance(st, (ast.Assign, ast.AugAssign)) and any(isinstance(a, ast.If) and ("self.scaling_factor" in unparse(a.test) or "self.offset" in unparse(a.test)) for a in ancestors(st)):
+                    continue  # comes with its guard
+                picked.append((st, mname))
+    if not picked:
+        return None, "no statement mentions the scaling factor or the offset"
+    body = []
+    for st, _ in picked:
+        tg = {t_.id for x in ast.walk(st) if isinstance(x, (ast.Assign, ast.AugAssign)) for t_ in ast.walk(x.targets[0] if isinstance(x, ast.Assign) else x.target) if isinstance(t_, ast.Name) and isinstance(t_.ctx, ast.Store)}
+        if len(tg) != 1:
+            return None, f"`{unparse(st)[:60]}` assigns {sorted(tg)}"
+        var = next(iter(tg))
+
+        class _R(ast.NodeTransformer):
+            def visit_Name(self, nd):
+                return ast.copy_location(ast.Name(id="m", ctx=nd.ctx), nd) if nd.id == var else nd
+
+        body.append(ast.fix_missing_locations(_R().visit(copy.deepcopy(st))))
+    pts = [(2.0, 0.8, 0.15), (-1.5, 0.75, 0.1), (0.3, 1.0, 0.2), (-4.0, 1.0, 0.5), (1.25, 0.5, 0.0), (-0.6, 0.9, 0.0), (3.0, 1.0, 0.0), (-2.0, 0.8, 0.25)]
+    for m0, s0, o0 in pts:
+        try:
+            env = run_fragment(body, {"m": m0}, {"self.scaling_factor": s0, "self.offset": o0, "self.normalized": s0 != 1.0}, max_steps=2000)
+        except (Unfoldable, FragRaise, FragReturn, TypeError) as exc:
+            return None, str(exc)
+        got = env.get("m")
+        if not isinstance(got, (int, float)) or isinstance(got, bool):
+            return None, "the corrected message is not a number"
+        scaled = m0 * s0
+        want = scaled - ((scaled > 0) - (scaled < 0)) * o0
+        if abs(got - want) > 1e-12:
+            return VIOLATION, f"message {m0}, scaling_factor {s0}, offset {o0}: the corrected message is {got!r}; normalised-then-offset min-sum gives {m0} * {s0} - sign * {o0} = {want!r} (statements: {'; '.join(unparse(b_)[:50] for b_ in body)}): the configured scaling / offset is not what is applied"
+    return OK, f"composition of {len(body)} statement(s) equals m * scaling_factor - sign(.) * offset on {len(pts)} configurations (scaling 1 and offset 0 included)"
+
+
 def rule_minsum(repo: Repo, rep: Report) -> int:
     ci = repo.cls(MS, "MinSumLDPCDecoder")
     fi = repo.method(ci, "compute_cv_minsum")
     n = 0
     ov = repo.method(ci, "compute_cv")
     rets = [s for s in ast.walk(ov.node) if isinstance(s, ast.Return)]
-    form(rep, "MINSUM", ov, rets[0].value if len(rets) == 1 else None, ["self.compute_cv_minsum(vc)"], "compute_cv override delegates to the min-sum update")
+    if len(rets) == 1 and isinstance(rets[0].value, ast.Name) and [unparse(s_.value) for s_ in assigns(ov, rets[0].value.id)][:1] == ["self.compute_cv_minsum(vc)"]:
+        # `cv = self.compute_cv_minsum(vc); <corrections>; return cv`: the corrections are judged by the composed evaluation below
+        rep.ok("MINSUM", ov, f"compute_cv override: {rets[0].value.id} = self.compute_cv_minsum(vc), post-processed", "delegates to the min-sum update", node=rets[0])
+    else:
+        form(rep, "MINSUM", ov, rets[0].value if len(rets) == 1 else None, ["self.compute_cv_minsum(vc)"], "compute_cv override delegates to the min-sum update")
     g = [s for s in ast.walk(fi.node) if isinstance(s, ast.Assign) and isinstance(s.value, ast.Call) and isinstance(s.value.func, ast.Attribute) and s.value.func.attr == "gather" and "ext_ce" in unparse(s.value)]
     if len(g) != 1 or not isinstance(g[0].targets[0], ast.Name):
         rep.undecided("MINSUM", fi, "gather(2, ext_ce)", "extrinsic gather not found")
@@ -454,6 +547,20 @@ def rule_minsum(repo: Repo, rep: Report) -> int:
     # scaling / offset, each under its own configuration guard
     set_parents(fi.node)
     sc = [s for s in vm if "scaling_factor" in unparse(s.value)]
+    of_ = [s for s in vm if "self.offset" in unparse(s.value)]
+    if len(sc) != 1 or len(of_) != 1:
+        # the correction is spelt / placed differently: the composition of every statement of the class's check update that
+        # mentions the scaling factor or the offset is evaluated on sample messages
+        st_, d_ = minsum_correction_evaluated(ci)
+        if st_ is not None:
+            rep.add("MINSUM", fi, "normalisation / offset correction of the min-sum message (all statements composed and evaluated)", st_, d_, node=fi.node)
+            n += 4
+            other = [s for s in vm if s not in prod and "scaling_factor" not in unparse(s.value) and "self.offset" not in unparse(s.value) and "torch.zeros" not in unparse(s.value)]
+            for s in other:
+                st, d, _ = classify(s.value, ["v_messages.view(batch_size, -1)", "v_messages.reshape(batch_size, -1)"])
+                rep.add("MINSUM", fi, s, OK if st == OK else UNDECIDED, "rank-2 view of an already reduced (batch, edges) tensor" if st == OK else "unrecognised rewrite of the message", node=s, nontrivial=False)
+            n += rule_collect(rep, fi, "c_group", "self.cv_group", "cv", "v_messages", reorder=True)
+            return n
     if len(sc) == 1:
         form(rep, "MINSUM", fi, sc[0].value, ["v_messages * self.scaling_factor"], "normalised min-sum: multiply by the scaling factor", "the configured scaling factor multiplies the message", num=([{"v_messages": 1.5, "self.scaling_factor": 0.8}, {"v_messages": -2.0, "self.scaling_factor": 0.75}], lambda p: p["v_messages"] * p["self.scaling_factor"]))
         gd = [a for a in ancestors(sc[0]) if isinstance(a, ast.If)]
